@@ -139,6 +139,10 @@ def c19_step(run):
         bad = _coq_shards(run, gdir, "geom_*.v", r"G =\s*(.*?)\s*:\s*list nat")
         if bad is None:
             return
+        # the verified containment checker, evaluated by the kernel on the implementation's answers
+        uncert = _coq_shards(run, gdir, "geom_*.v", r"H =\s*(.*?)\s*:\s*list nat") or []
+        run.cov.setdefault("containment_certified", {})[cls] = sum(1 for c in cases if c.get("panic") != "skipped" and c["outcome"] == 0) - len(uncert)
+        bad = sorted(set(bad) | set(uncert))
         evaluated = [c for c in cases if c.get("panic") != "skipped"]
         run.cov["traces_validated_against_impl"] += len(evaluated)
         run.cov["evaluations"] += len(evaluated)
